@@ -1159,7 +1159,7 @@ def main():
         if f.vararg: ps.append('...')
         return '%s %s(%s)' % (em.ctype(f.ret), name, ', '.join(ps) or 'void')
     allf = set(done) | ext_funcs
-    LIBC = ('strcmp','strlen','memcmp','bcmp','malloc','free','memchr','memcpy','memmove','memset','abort','realloc','calloc')
+    LIBC = ('strcmp','strlen','memcmp','bcmp','malloc','free','memchr','memcpy','memmove','memset','abort','realloc','calloc','strncpy','strncmp','strchr')
     for n in sorted(allf):
         f = m.funcs[n]
         if n in LIBC: continue
